@@ -209,6 +209,14 @@ def make_root(name):
     return pg.Dict(own=pg.Dict(x=0), r=pg.Ref(target), l=pg.List([pg.Ref(target)]))
   if name == 'withleaf':
     return pg.Dict(l=fixtures.Leaf(1), n=pg.List([fixtures.Leaf(2), pg.Dict(z=fixtures.Leaf(3))]))
+  if name == 'withtuple':
+    return pg.Dict(t=(('adam', pg.Dict(lr=0)), ('sgd', pg.Dict(lr=1))), u=(pg.List([1]), 2),
+                   l=pg.List([((pg.Dict(z=0),),)]))
+  if name == 'unsealed_default_sealed':
+    inner = fixtures.SealedByDefault(x=pg.Dict(q=0), items=[pg.Dict(r=1)]).seal(False)
+    return pg.Dict(a=inner, b=fixtures.SealedByDefault(x=1))
+  if name == 'unsealed_root':
+    return fixtures.SealedByDefault(x=pg.Dict(q=0), items=[1]).seal(False)
   if name == 'none':
     return None
   raise ValueError(name)
